@@ -18,6 +18,8 @@ type Tok struct {
 	// Decl says how it is declared: "token" (default), "prec" (only in a precedence
 	// line), "rule" (only used in a rule; literals only).
 	Decl string
+	// NumText, when set, is how the explicit number is spelled in the file (e.g. "0100")
+	NumText string
 }
 
 func (t Tok) Ref() string {
@@ -106,7 +108,11 @@ func (s *Spec) tokenDeclLines() []declLine {
 		items := []string{t.Ref()}
 		bare := t.Name != "" && t.Num == 0
 		if t.Name != "" && t.Num != 0 {
-			items = append(items, fmt.Sprint(t.Num))
+			if t.NumText != "" {
+				items = append(items, t.NumText)
+			} else {
+				items = append(items, fmt.Sprint(t.Num))
+			}
 		}
 		if s.GroupTokens && len(out) > 0 && out[len(out)-1].Tag == t.Tag && !(t.Name == "" && lastBare) {
 			out[len(out)-1].Items = append(out[len(out)-1].Items, items...)
@@ -992,6 +998,11 @@ func Fixed() []*Spec {
 		sp.Rules[0].Mid, sp.Rules[0].MidPos = "{ verifMidRule() }", 1
 		add(sp)
 	}
+	// explicit token numbers spelled with leading zeros (decimal, as in yacc)
+	add(&Spec{Name: "leading_zero", Tags: []string{"lalr1"},
+		Toks:  []Tok{{Name: "NUM", Num: 100, Tag: "val", NumText: "0100"}, {Name: "PLUS", Num: 43, NumText: "043"}, {Name: "STAR", Num: 8, NumText: "08"}},
+		Rules: rules("E: E PLUS T | T", "T: T STAR NUM | NUM"),
+		NTTag: allVal("E", "T")})
 	// names that differ only in case; automatic token numbers
 	add(&Spec{Name: "case_names", Tags: []string{"lalr1"},
 		Toks:  []Tok{named("NUM", 0), named("List", 0), lit(',')},
